@@ -109,6 +109,11 @@ func PlmnIdToCdr(modelsPlmnid models.PlmnId) cdrType.PLMNId {
 	}
 	mcc := strings.Split(modelsPlmnid.Mcc, "")
 	mnc := strings.Split(modelsPlmnid.Mnc, "")
+	if len(mcc) != len(modelsPlmnid.Mcc) || len(mnc) != len(modelsPlmnid.Mnc) {
+		// Split yields one part per character, the guard above counted bytes: multi-byte characters
+		// are no digits, nothing to convert
+		return cdrPlmnId
+	}
 	if len(modelsPlmnid.Mnc) == 2 {
 		hexString = mcc[1] + mcc[0] + "f" + mcc[2] + mnc[1] + mnc[0]
 	} else {
